@@ -37,13 +37,22 @@ SK = {
                                    {'int1': {'tbl1'}}, [('mindsdb', ['pred']), ('proj', ['pred2'])]),
     'two-models-partition-global-and-own': ("SELECT * FROM {A}.tbl1 AS t JOIN {M}.pred AS m1 JOIN {P}.pred2 AS m2 USING partition_size=10, m2.partition_size=7",
                                             {'int1': {'tbl1'}}, [('mindsdb', ['pred']), ('proj', ['pred2'])]),
-    'cte-named-like-table': ("WITH tbl2 AS (SELECT * FROM {A}.tbl1) SELECT * FROM {B}.tbl2", {'int1': {'tbl1'}, 'int2': {'tbl2'}}, []),
+    'cte-named-like-table': ("WITH tbl2 AS (SELECT * FROM {A}.tbl1) SELECT * FROM {B}.tbl2", {'int1': {'tbl1'}, 'int2': {'tbl2'}}, [], {'int2': {'tbl2'}}),
     'cte-named-like-table-join': ("WITH tbl2 AS (SELECT a, id FROM {A}.tbl1) SELECT * FROM tbl2 JOIN {B}.tbl2 AS u ON tbl2.id = u.id", {'int1': {'tbl1'}, 'int2': {'tbl2'}}, []),
     'cte-unused-named-like-table': ("WITH tbl1 AS (SELECT b FROM {B}.tbl2) SELECT a FROM {A}.tbl1 AS t JOIN {B}.tbl3 AS u ON t.id = u.id", {'int1': {'tbl1'}, 'int2': {'tbl3'}}, []),
     # a CTE named like the unqualified table (of the default namespace) that its own body reads: inside the body the name means the table
     'cte-shadows-default-table': ("WITH tbl9 AS (SELECT * FROM tbl9 WHERE a = 1) SELECT a FROM tbl9", {'mindsdb': {'tbl9'}}, []),
     'cte-shadows-default-table-nested': ("WITH c AS (WITH tbl9 AS (SELECT * FROM tbl9) SELECT a FROM tbl9) SELECT * FROM c JOIN {A}.tbl1 AS t ON t.a = c.a", {'mindsdb': {'tbl9'}, 'int1': {'tbl1'}}, []),
     'cte-shadows-default-table-join': ("WITH tbl9 AS (SELECT * FROM tbl9) SELECT * FROM tbl9 JOIN {A}.tbl1 AS t ON t.id = tbl9.id", {'mindsdb': {'tbl9'}, 'int1': {'tbl1'}}, []),
+    # the answer is the LAST step's result: CTEs the outer query does not read (4th element = what the answer is computed from)
+    'cte-two-select-first': ("WITH c1 AS (SELECT a FROM {A}.tbl1), c2 AS (SELECT b FROM {B}.tbl2) SELECT * FROM c1", {'int1': {'tbl1'}, 'int2': {'tbl2'}}, [], {'int1': {'tbl1'}}),
+    'cte-two-select-second': ("WITH c1 AS (SELECT a FROM {A}.tbl1), c2 AS (SELECT b FROM {B}.tbl2) SELECT * FROM c2", {'int1': {'tbl1'}, 'int2': {'tbl2'}}, [], {'int2': {'tbl2'}}),
+    'cte-two-select-first-where': ("WITH c1 AS (SELECT a FROM {A}.tbl1), c2 AS (SELECT b FROM {B}.tbl2) SELECT a FROM c1 WHERE a > 1", {'int1': {'tbl1'}, 'int2': {'tbl2'}}, [], {'int1': {'tbl1'}}),
+    'cte-two-nested-select-first': ("WITH c1 AS (SELECT a FROM {A}.tbl1), c2 AS (SELECT b FROM {B}.tbl2) SELECT * FROM (SELECT * FROM c1) AS s", {'int1': {'tbl1'}, 'int2': {'tbl2'}}, [], {'int1': {'tbl1'}}),
+    'cte-chain-select-first': ("WITH c1 AS (SELECT a, id FROM {A}.tbl1), c2 AS (SELECT * FROM c1 JOIN {M}.pred AS m) SELECT * FROM c1", {'int1': {'tbl1'}}, [('mindsdb', ['pred'])], {'int1': {'tbl1'}}),
+    'cte-three-select-middle': ("WITH c1 AS (SELECT a FROM {A}.tbl1), c2 AS (SELECT b FROM {B}.tbl2), c3 AS (SELECT a FROM {A}.tbl3) SELECT * FROM c2",
+                                {'int1': {'tbl1', 'tbl3'}, 'int2': {'tbl2'}}, [], {'int2': {'tbl2'}}),
+    'cte-two-join-both': ("WITH c1 AS (SELECT a, id FROM {A}.tbl1), c2 AS (SELECT b, id FROM {B}.tbl2) SELECT * FROM c2 JOIN c1 ON c1.id = c2.id", {'int1': {'tbl1'}, 'int2': {'tbl2'}}, []),
     'two-models': ("SELECT * FROM {A}.tbl1 AS t JOIN {M}.pred AS m JOIN {P}.pred2 AS m2", {'int1': {'tbl1'}}, [('mindsdb', ['pred']), ('proj', ['pred2'])]),
     'select-from-model': ("SELECT p FROM {M}.pred WHERE x = 1", {}, [('mindsdb', ['pred'])]),
     'ts-model-join': ("SELECT * FROM {A}.tbl1 AS t JOIN {M}.tspred AS m WHERE t.ts > LATEST", {'int1': {'tbl1'}}, [('mindsdb', ['tspred'])]),
@@ -125,7 +134,7 @@ def leaf(name, bits_a, bits_b, bits_m, as_dicts, legacy_meta):
         tmpl = GEN[name]
         exp_fetch, exp_pred = gen_expected(tmpl), []
     else:
-        tmpl, exp_fetch, exp_pred = SK[name]
+        tmpl, exp_fetch, exp_pred = SK[name][:3]
     api = 'apidb' in tmpl
     ts = 'tspred' in tmpl
     kw = PL.catalog(as_dicts=as_dicts, legacy_meta=legacy_meta, api=api, ts=ts)
@@ -146,6 +155,17 @@ def leaf(name, bits_a, bits_b, bits_m, as_dicts, legacy_meta):
         return p09, p10, info
     # ---- C09
     p09 += PL.wellformed(plan)
+    # the last step produces the answer: every table / model the answer depends on is read by the steps the last step is computed from
+    need = SK[name][3] if (not isinstance(name, int) and len(SK[name]) > 3) else exp_fetch
+    src_tabs, src_preds = PL.answer_sources(plan)
+    for integ, tabs in need.items():
+        missing = sorted(t for t in tabs if t not in src_tabs.get(integ, set()))
+        if missing and any(t in {x for f in PL.fetches(plan) if f.integration == integ for x in (str(i.parts[-1]).lower() for i in PL.tables_of(f.query))} for t in missing):
+            p09.append('the last step is not computed from table(s) %s of %s, which the answer depends on (they are fetched, but only by steps the last step does not use)' % (missing, integ))
+    for ns, parts in exp_pred:
+        if need is exp_fetch and (ns, parts) not in src_preds and any((p.namespace, [str(x).lower() for x in p.predictor.parts]) == (ns, parts)
+                                                                        for p, _, _ in PL.all_steps(plan.steps) if hasattr(p, 'predictor') and hasattr(p, 'namespace')):
+            p09.append('the last step is not computed from model %s.%s, which the answer depends on' % (ns, '.'.join(parts)))
     # ---- C10
     if repr(plan.steps).lower() != repr(canon.steps).lower():
         p10.append('plan differs from the plan of the canonical spelling / catalog form')
